@@ -472,6 +472,10 @@ func (p Pred) Eval(id int64, version int, ntags int) bool {
 		return version%2 == 0
 	case 5:
 		return ((id*31+7)%11+11)%11 < p.A
+	case 6: // everything outside the id range [A, B]
+		return !(p.A <= id && id <= p.B)
+	case 7: // the id range [A, B]
+		return p.A <= id && id <= p.B
 	}
 	return true
 }
